@@ -39,6 +39,14 @@ static J gen_history(Chooser &ch, bool two_d)
       o.cross_section = two_d ? 2 : 1;
       g::GW w = (siblings && i == 1) ? gws[0] : g::gen_world(ch, o);
       if (siblings && i == 1) perturb_parameters(w.root);
+      if (!siblings)
+        {
+          // feature names from one pool for all worlds, in an order of their own in each: the same name then sits at different
+          // positions of different worlds (names are how distance_to_plane finds its feature)
+          std::vector<std::string> pool = {"alpha", "beta", "gamma", "delta", "epsilon", "zeta"};
+          for (size_t k = pool.size(); k > 1; --k) std::swap(pool[k - 1], pool[ch.index(k)]);
+          for (size_t k = 0; k < w.root["features"].size() && k < pool.size(); ++k) w.root["features"][k]["name"] = pool[k];
+        }
       worlds.push(J(w.root.dump()));
       gws.push_back(w);
     }
@@ -69,6 +77,14 @@ static J gen_history(Chooser &ch, bool two_d)
         }
       s["q"] = q;
       s["props"] = g::gen_props(ch, 8);
+      // 30%: the step also asks for the distance to a feature's plane, by name (a slab / fault of that world when there is one)
+      if (ch.chance(30))
+        {
+          std::vector<std::string> lines, all;
+          for (const auto &f : w.root.at("features").a) { all.push_back(f.at("name").str()); if (f.has("segments")) lines.push_back(f.at("name").str()); }
+          if (!lines.empty() && ch.chance(85)) s["dtp"] = lines[ch.index(lines.size())];
+          else if (!all.empty()) s["dtp"] = all[ch.index(all.size())];
+        }
       steps.push(s);
       if (siblings) { J s2 = s; s2["w"] = 1 - static_cast<int>(wi); steps.push(s2); } // the same request to the sibling, immediately
     }
@@ -79,12 +95,13 @@ static J gen_history(Chooser &ch, bool two_d)
 static ProcRef g_ref;
 
 static std::vector<double> run_query(const WB::World &w, const J &s, const PropList &pl);
+static std::vector<double> run_dtp(const WB::World &w, const J &s);
 
 // executed in a fresh process: one world, its requests in order, answers as bit patterns
 static J fresh_process_answers(const J &req)
 {
   J out = J::obj();
-  J answers = J::arr();
+  J answers = J::arr(), dtps = J::arr();
   {
     auto w = make_world(req.at("world").str(), 1, "fresh");
     for (const auto &s : req.at("steps").a)
@@ -93,11 +110,26 @@ static J fresh_process_answers(const J &req)
         try { for (double v : run_query(*w, s, props_from(s.at("props")))) a.push(J(bits_hex(v))); }
         catch (const std::exception &) { a = J(); }
         answers.push(a);
+        J dd = J::arr();
+        if (s.has("dtp")) for (double v : run_dtp(*w, s)) dd.push(J(bits_hex(v)));
+        dtps.push(dd);
       }
   }
   out["answers"] = answers;
+  out["dtp"] = dtps;
   remove_scratch();
   return out;
+}
+
+// World::distance_to_plane for the feature named in the step ("dtp"); {} when the call throws (e.g. the name is not a slab / fault)
+static std::vector<double> run_dtp(const WB::World &w, const J &s)
+{
+  try
+    {
+      const WB::Objects::PlaneDistances d = w.distance_to_plane(p3(s.at("q").at("p")), s.at("q").at("depth").num(), s.at("dtp").str());
+      return {d.get_distance_from_surface(), d.get_distance_along_surface()};
+    }
+  catch (const std::exception &) { return {}; }
 }
 
 static std::vector<double> run_query(const WB::World &w, const J &s, const PropList &pl)
@@ -116,13 +148,15 @@ static Result check_history(const J &c)
       twin_w.push_back(make_world(c.at("worlds")[i].str(), 1, ("t" + std::to_string(i)).c_str()));
     }
   if (main_w.size() >= 2) r.classes.push_back(">=2 worlds alive");
-  std::vector<std::vector<double>> first_answers;
+  std::vector<std::vector<double>> first_answers, dtp_mine;
   for (const auto &s : c.at("steps").a)
     {
       const size_t wi = static_cast<size_t>(s.at("w").num());
       const WB::World &W = *main_w[wi], &T = *twin_w[wi];
       const PropList pl = props_from(s.at("props"));
       const bool d2 = s.at("dim").num() == 2;
+      dtp_mine.push_back(s.has("dtp") ? run_dtp(W, s) : std::vector<double>());
+      if (s.has("dtp")) r.classes.push_back("distance_to_plane call in the history");
       std::vector<double> out;
       try { out = run_query(W, s, pl); }
       catch (const std::exception &) { first_answers.emplace_back(); r.classes.push_back("query-threw"); continue; }
@@ -218,6 +252,16 @@ static Result check_history(const J &c)
       if (resp.has("error")) { r.classes.push_back("fresh-process-error"); continue; }
       for (size_t k = 0; k < idx.size(); ++k)
         {
+          if (resp.has("dtp") && c.at("steps")[idx[k]].has("dtp"))
+            {
+              const J &dd = resp.at("dtp")[k];
+              const std::vector<double> &dm = dtp_mine[idx[k]];
+              r.inner++;
+              bool same = dd.size() == dm.size();
+              for (size_t j = 0; same && j < dm.size(); ++j) if (dd[j].str() != bits_hex(dm[j])) same = false;
+              if (!same)
+                return Result::fail("process-state-dependence", "world " + std::to_string(wi) + " step " + std::to_string(idx[k]) + ": distance_to_plane for feature '" + c.at("steps")[idx[k]].at("dtp").str() + "' returns " + (dm.empty() ? std::string("an exception") : fmt(dm[0]) + " / " + fmt(dm[1])) + " in this process (other worlds alive, earlier queries made) but a fresh process that only built this world returns " + (dd.size() == 0 ? std::string("an exception") : "other bits") + "; request " + c.at("steps")[idx[k]].dump());
+            }
           const J &a = resp.at("answers")[k];
           const std::vector<double> &mine = first_answers[idx[k]];
           if (a.is_null() || mine.empty()) continue;
